@@ -769,6 +769,10 @@ func (c *Ctx) Concat(hi, lo *Term) *Term {
 	if hi.Op == OpExtract && lo.Op == OpExtract && hi.Args[0] == lo.Args[0] && hi.P1 == lo.P0+1 {
 		return c.Extract(hi.Args[0], hi.P0, lo.P1)
 	}
+	// concat(zext(x), y) = zext(concat(x, y))
+	if hi.Op == OpZext {
+		return c.Zext(c.Concat(hi.Args[0], lo), hi.P0)
+	}
 	// concat(0, x) -> zext
 	if hi.IsConst() && hi.Val.Sign() == 0 {
 		return c.Zext(lo, hi.S.W)
